@@ -54,6 +54,32 @@ def stall_handler(res, failure, ws, prop, by_id):
     return True
 
 
+# traits whose generated impl a property talks about: a declaration of the property's corpus that derives one of them, is accepted by the
+# macro (no diagnostic of its own) and whose *expansion* then fails to type-check has no such impl at all - the property cannot hold for it
+RELEVANT_DERIVES = {"C01": None, "C03": {"TryFrom", "From", "Default", "FromStr"}, "C04": {"Deserialize"}, "C10": {"Serialize", "Deserialize"}, "C06": {"FromStr"},
+                    "C09": {"Arbitrary"}, "C14": {"Arbitrary"}, "C12": {"Eq", "Ord"},
+                    "C13": {"AsRef", "Deref", "Borrow", "Into", "IntoIterator", "Display", "Clone", "Copy", "PartialEq", "Eq", "PartialOrd", "Ord", "Hash"}}
+
+
+def accepted_but_uncompilable(res, prop):
+    rel = RELEVANT_DERIVES.get(prop, "skip")
+    if rel == "skip":
+        return
+    for did, q in list(res.quarantined.items()):
+        if prop not in q.get("tags", []):
+            continue
+        if rel is not None and not (rel & set(q.get("derives", []))):
+            continue
+        for e in q["errors"]:
+            # rustc's own error (it has a code) raised inside the macro's output; the macro's refusals carry no code, harness (glue) errors no such note
+            if e.get("code") and "originates in the attribute macro `nutype`" in e.get("rendered", ""):
+                v = {"decl": did, "signature": "accepted-declaration-does-not-compile:%s" % e.get("code"), "input": "<compile>", "observed": e.get("message", "")[:200],
+                     "expected": "a declaration the macro accepts expands to code that compiles", "detail": q["decl"], "count": 1}
+                v["replay"] = write_witness(res, v, None, q["decl"], kind="compile")
+                res.violations.append(v)
+                break
+
+
 def ctor_flow(prop, tier, seed, rule, guards_fn, assumptions=None):
     res = Result(prop, tier, seed)
     res.rule = rule
@@ -63,6 +89,7 @@ def ctor_flow(prop, tier, seed, rule, guards_fn, assumptions=None):
     reports = out[prop]
     absorb_reports(res, reports, by_id)
     guards_fn(res, reports)
+    accepted_but_uncompilable(res, prop)
     res.assumptions += ASSUME_COMMON + (assumptions or [])
     return finish(res)
 
@@ -295,8 +322,54 @@ def check_c16(tier, seed):
                      ["a message without a recognisable relation phrase is INCONCLUSIVE, not a violation"])
 
 
+def unsafe_door_verdicts(res, tier):
+    """C12's "through any safe entry point": for finite float newtypes deriving Eq/Ord the only door for NaN is `new_unchecked`, which must
+    stay `unsafe` (and absent without the flag) under every flag combination; each attack has a twin that differs only by the `unsafe` block."""
+    cases = []
+    n = 0
+    for ty in ("f32", "f64"):
+        for cf in (False, True):
+            for extra in ("", ", greater_or_equal = -1.5", ", less = 64.0"):
+                for flag in (True, False):
+                    n += 1
+                    attrs = "%svalidate(finite%s), derive(Debug, Clone, Copy, PartialEq, Eq, PartialOrd, Ord)%s" % ("const_fn, " if cf else "", extra, ", new_unchecked" if flag else "")
+                    decl = "use nutype::nutype;\n#[nutype(%s)]\npub struct T(%s);\n" % (attrs, ty)
+                    if flag:
+                        bad = decl + "pub fn f() -> T { T::new_unchecked(%s::NAN) }\n" % ty
+                        good = decl + "pub fn f() -> T { unsafe { T::new_unchecked(%s::NAN) } }\n" % ty
+                        rule = "new_unchecked-callable-without-unsafe"
+                    else:
+                        bad = decl + "pub fn f() -> T { unsafe { T::new_unchecked(%s::NAN) } }\n" % ty
+                        good = decl + "pub fn f() -> Option<T> { T::try_new(%s::NAN).ok() }\n" % ty
+                        rule = "new_unchecked-exists-without-flag"
+                    cb = verdict.Case("b%03d" % n, bad, "MUST_REJECT", "unsafe-door:%s:%s%s" % (rule, ty, ":const_fn" if cf else ""), note=attrs, group="c12")
+                    cg = verdict.Case("g%03d" % n, good, "MUST_ACCEPT", "unsafe-door-control:%s:%s%s" % (rule, ty, ":const_fn" if cf else ""), control_of=cb.id, note=attrs, group="c12")
+                    cases += [cb, cg]
+    vc = verdict.VerdictCrate("c12v-%s" % tier, cratebuild.ALL_FEATURES, extra_deps=FULL_DEPS, nshards=4)
+    try:
+        out, info = verdict.run_verdicts(vc, cases, log=log)
+    except Inconclusive as e:
+        res.inconclusive.append(str(e))
+        return
+    judged = 0
+    for c in cases:
+        if c.expect != "MUST_REJECT":
+            continue
+        ob, og = out[c.id], out["g" + c.id[1:]]
+        res.evaluations += 2
+        if og["verdict"] != "accepted":
+            res.inconclusive.append("control of %s does not compile: %s" % (c.rule, json.dumps(og["errors"])[:300]))
+            continue
+        judged += 1
+        res.classes.add(c.rule)
+        if ob["verdict"] == "accepted":
+            res.violations.append(verdict_witness(res, c, "compiles: safe code builds T(NaN)", "non-finite-obtainable-in-safe-code:" + c.rule.split(":")[1]))
+    res.guard("unsafe_door_programs_judged", judged, 20)
+
+
 def check_c12(tier, seed):
     def guards(res, reports):
+        unsafe_door_verdicts(res, tier)
         for k in ("nonfinite_offered:ctor", "nonfinite_offered:TryFrom", "nonfinite_offered:FromStr", "nonfinite_offered:Deserialize", "nonfinite_offered:Arbitrary"):
             res.guard(k, sum_guard(reports, k), 1)
         res.guard("triples", sum_guard(reports, "triples"), 100000)
@@ -336,8 +409,34 @@ def check_c04(tier, seed):
                      "accepted|rejected-by-inner-type|rejected-by-validator|changed-by-sanitizer) triple.", guards)
 
 
+def serde_scope_verdicts(res, tier):
+    """C10 quantifies over every declaration deriving Serialize + Deserialize - wherever it is written. The declaring module may define names
+    the prelude also has (`type Result<T> = ..` is idiomatic); the generated impls must still compile there. Cases are the `scope:*`
+    MUST_ACCEPT programs of the verdict corpus (triaged on the pinned tree), all of which derive both traits."""
+    vb = corpus_verdict.VB()
+    corpus_verdict.names(vb, cratebuild.ALL_FEATURES, "c10")
+    cases = [c for c in vb.cases if c.rule.startswith("scope:") and c.expect == "MUST_ACCEPT" and "Deserialize" in c.body]
+    vc = verdict.VerdictCrate("c10v-%s" % tier, cratebuild.ALL_FEATURES, extra_deps=FULL_DEPS, nshards=4)
+    try:
+        out, info = verdict.run_verdicts(vc, cases, log=log)
+    except Inconclusive as e:
+        res.inconclusive.append(str(e))
+        return
+    ok = 0
+    for c in cases:
+        o = out[c.id]
+        res.evaluations += 1
+        if o["verdict"] == "accepted":
+            ok += 1
+            res.classes.add("scope|" + c.rule.split(":")[1])
+        else:
+            res.violations.append(verdict_witness(res, c, "rejected: %s" % json.dumps(o["errors"])[:500], "serde-impls-do-not-compile-in-scope:" + c.rule.split(":")[1]))
+    res.guard("serde_declarations_compiled_in_shadowing_scopes", ok + len(res.violations), 80)
+
+
 def check_c10(tier, seed):
     def guards(res, reports):
+        serde_scope_verdicts(res, tier)
         # the harness deserializes into an owned value from a short-lived buffer (`T: DeserializeOwned`, which serde gives every
         # newtype whose inner type is owned or `Cow`): a declaration that builds on its own but whose impl is tied to the input
         # lifetime cannot round-trip at all
